@@ -68,6 +68,8 @@ func heldBurst(w *W, ps *plans, uri, key string, in c07Inst, n int, a ans) (res 
 	var once sync.Once
 	release := func() { once.Do(func() { close(gate) }) }
 	ps.set(uri, &plan{Seq: []ans{a}, Gate: func(f *hx.Fetch) <-chan struct{} { return gate }})
+	// contacts of the previous step must be over at the origin before this one is counted
+	hx.WaitUntil(10*time.Second, func() bool { return w.Farm.InflightKey(key) == 0 })
 	baseReg := w.Pts.Count("get.registered")
 	w.Farm.ResetMaxInflight()
 	var returned atomic.Int64
